@@ -88,7 +88,7 @@ def verify_contract(c):
     meta = {'hash': source.norm_hash(fnode) + '.' + context_hash(tree, c.qualname), 'inlined': sorted(eng.inlined),
             'callees': sorted(eng.used_contracts),
             'assumed': sorted(world.used), 'paths': eng.stats['paths']}
-    for key in eng.inlined:
+    for key in sorted(eng.inlined):
         rel2, q2 = key.split('::')
         t2, _ = module_tree(rel2)
         f2 = source.find_function(t2, q2)
@@ -293,7 +293,7 @@ def run_property(rep, pid, budget_s=None):
                     rep.trust('assumed contract of %s - %s' % (cc.qualname, t))
     rep.pending_failed = getattr(rep, 'pending_failed', []) + [
         {'key': key, 'name': a['name'], 'status': a['status'], 'model': a['model'], 'reason': a['reason'],
-         'hash': meta['hash'], 'baseline': base.get(noline(a['name']))} for key, a, meta in failed]
+         'hash': meta['hash'], 'baseline': base.get(noline(a['name'])), 'tier': REGISTRY[key].tier} for key, a, meta in failed]
     return res
 
 
